@@ -214,6 +214,8 @@ where
 
 	pub fn check_version(&self) -> Result<VersionInfo, Error> {
 		if let Some(m) = self.middleware.as_ref() {
+			#[cfg(feature = "verif_hooks")]
+			let _verif_scope = grin_wallet_libwallet::verif::lock_scope();
 			let mut w_lock = self.wallet_inst.lock();
 			let w = w_lock.lc_provider()?.wallet_inst()?;
 			m(
@@ -276,6 +278,8 @@ where
 	/// ```
 
 	pub fn build_coinbase(&self, block_fees: &BlockFees) -> Result<CbData, Error> {
+		#[cfg(feature = "verif_hooks")]
+		let _verif_scope = grin_wallet_libwallet::verif::lock_scope();
 		let mut w_lock = self.wallet_inst.lock();
 		let w = w_lock.lc_provider()?.wallet_inst()?;
 		if let Some(m) = self.middleware.as_ref() {
@@ -352,6 +356,8 @@ where
 		dest_acct_name: Option<&str>,
 		r_addr: Option<String>,
 	) -> Result<Slate, Error> {
+		#[cfg(feature = "verif_hooks")]
+		let _verif_scope = grin_wallet_libwallet::verif::lock_scope();
 		let mut w_lock = self.wallet_inst.lock();
 		let w = w_lock.lc_provider()?.wallet_inst()?;
 		if let Some(m) = self.middleware.as_ref() {
@@ -437,6 +443,8 @@ where
 	/// ```
 
 	pub fn finalize_tx(&self, slate: &Slate, post_automatically: bool) -> Result<Slate, Error> {
+		#[cfg(feature = "verif_hooks")]
+		let _verif_scope = grin_wallet_libwallet::verif::lock_scope();
 		let mut w_lock = self.wallet_inst.lock();
 		let w = w_lock.lc_provider()?.wallet_inst()?;
 		let post_automatically = match self.doctest_mode {
